@@ -17,6 +17,7 @@ Driver.Prank — line protocol for C14 (one reply per request line; numbers hex 
 
   w reset | w code <a> <hex|-> | w bal <a> <v> | w baldefault <v> | w storage <a> <k> <v> | w param <name> <v>   -> ok
         (sets up the Spec world/params and the Model network state identically)
+  cheatinc store <who> <slot> <delta> | cheatinc deal <who> <delta>   -> ok | error   (read-modify-write of the current value)
   cheat deal <who> <amt> | cheat store <who> <slot> <val> | cheat etch <who> <hex|-> | cheat warp|roll|fee|chainId|coinbase|difficulty <v>
         -> ok | error      (Spec: applyWorld/applyParams; Model: hevmState — `error` = the Model's HalmosException, the
                             Spec state is still updated)
@@ -232,6 +233,27 @@ def handleState (s : St) (toks : List String) : St × String :=
       | "allocbase" => ({ s with p := { s.p with newAddress := fun n => v + n } }, "ok")
       | "memlimit" => ({ s with p := { s.p with memLimit := v } }, "ok")
       | _ => (s, "bad-op")
+  | ["cheatinc", "store", who, slot, delta] =>
+    -- read-modify-write: vm.store(who, slot, vm.load(who, slot) + delta), Spec and Model each from their own read
+    match hexVal? who, hexVal? slot, hexVal? delta with
+    | some who, some slot, some delta =>
+      let cS : StateCheat := .store who slot (Spec.Foundry.load s.w who slot + delta)
+      let cM : StateCheat := .store who slot (hevmLoad s.n who slot + delta)
+      let s1 := { s with w := applyWorld s.w cS, p := applyParams s.p cS }
+      match hevmState s.n cM with
+      | .ok n' _ => ({ s1 with n := n' }, "ok")
+      | .halmosError => (s1, "error")
+    | _, _, _ => (s, "bad-op")
+  | ["cheatinc", "deal", who, delta] =>
+    match hexVal? who, hexVal? delta with
+    | some who, some delta =>
+      let cS : StateCheat := .deal who (s.w.balanceOf (addrMask who) + delta)
+      let cM : StateCheat := .deal who (s.n.balance (uint160 who) + delta)
+      let s1 := { s with w := applyWorld s.w cS, p := applyParams s.p cS }
+      match hevmState s.n cM with
+      | .ok n' _ => ({ s1 with n := n' }, "ok")
+      | .halmosError => (s1, "error")
+    | _, _ => (s, "bad-op")
   | "cheat" :: rest =>
     match parseCheat? rest with
     | none => (s, "bad-op")
